@@ -5,6 +5,7 @@
    Hash ids are modelled as the hashed text (premise: no FNV-64 collision). *)
 From Coq Require Import List NArith ZArith Bool.
 From BE Require Import Model.GoTypes Model.GoVal Model.Parsers Model.Index Model.Spec Proofs.CanonProof.
+From BE Require Model.Json Proofs.JsonProof Proofs.JsonIndex Proofs.HoldersBuildInv Proofs.IndexCorrectHolders Proofs.SpecBridge Proofs.SpecBridgeHolders Proofs.IndexCorrectPolicy Proofs.SpecBridgeHoldersPolicy.
 Import ListNotations.
 
 (* a scalar in ANY supported representation (every integer width signed or unsigned, numeric or
@@ -48,8 +49,70 @@ Example C09_nonvacuous :
   common_parse_value (VSlice TSuint8 false [VInt KU8 7]) = POk [PText [55]%N].
 Proof. vm_compute. repeat split. Qed.
 
+(* SECOND HALF OF THE PROPERTY: a document decoded from its own JSON encoding matches the same assignments.
+   Model/Json.v json_roundtrip is an executable model of Unmarshal(Marshal(v)) into interface{} (numbers become float64
+   -- rounded at 53 bits --, every slice/array becomes []interface{}, a nil slice becomes null = the nil interface, a
+   json.Number is re-read as a float64, float32 is written with its shortest float32 digits); it is compared with the
+   real decoder on every run (Corr/CheckJsonModel.v).  json_safe is the (boolean) domain on which NOTHING changes:
+   integers and canonical json.Numbers of magnitude <= 2^53, finite floats (float32 below 2^24), strings, non-nil
+   slices of those, between pairs in their three spellings.  On it, for EVERY container kind, parser and operator ... *)
+Theorem C09_json_expression_keeps_its_meaning : forall fd e,
+  Json.json_safe fd (e_op e) (e_val e) = true ->
+  exists e', Json.expr_roundtrip e = Some e' /\ expr_sem fd e' = expr_sem fd e /\ e_incl e' = e_incl e /\ e_op e' = e_op e.
+Proof. exact JsonProof.expr_sem_roundtrip. Qed.
+
+(* ... hence the decoded documents denote the same and the specification returns the same hits for every assignment ... *)
+Theorem C09_json_transparent : forall fields parsers pol ds,
+  forallb (Json.doc_safe fields parsers) ds = true ->
+  exists ds', Json.docs_roundtrip ds = Some ds' /\ map d_id ds' = map d_id ds /\
+    (forall q, sat_hits fields parsers pol pl_docok ds' q = sat_hits fields parsers pol pl_docok ds q) /\
+    map (doc_sem fields parsers pol pl_docok) ds' = map (doc_sem fields parsers pol pl_docok) ds.
+Proof. exact JsonProof.json_transparent. Qed.
+
+(* ... and so does the BUILT INDEX: same AddDocument outcomes, same reported triples, any container mix, every policy *)
+Theorem C09_json_index_transparent : forall kind pol thr parsers cfgl st0 ds st os ds' st' os' q,
+  HoldersBuildInv.config_fields (new_builder kind pol thr parsers) cfgl = Some st0 ->
+  add_documents false st0 ds = (st, os) ->
+  NoDup (map d_id ds) ->
+  (forall d cj, In d ds -> In cj (d_conjs d) -> NoDup (map fst cj)) ->
+  (forall d, In d ds -> SpecBridgeHoldersPolicy.doc_ok parsers cfgl d) ->
+  IndexCorrectPolicy.sizes_ok ds ->
+  SpecBridgeHoldersPolicy.skip_ok2 pol (SpecBridgeHolders.cfg_fields parsers cfgl) parsers ds ->
+  (- two64 < thr)%Z ->
+  NoDup (map fst q) ->
+  SpecBridgeHolders.asg_good' parsers cfgl q ->
+  SpecBridgeHoldersPolicy.asg_dom_den parsers cfgl ds q ->
+  (kind = IKGroups -> forall f v, In (f, v) q -> HoldersBuildInv.cfg_of cfgl f = CAc -> IndexCorrectHolders.nil_slice_wf v) ->
+  forallb (JsonIndex.doc_safe_ix (SpecBridgeHolders.cfg_fields parsers cfgl) parsers) ds = true ->
+  Json.docs_roundtrip ds = Some ds' ->
+  add_documents false st0 ds' = (st', os') ->
+  os' = os /\
+  exists hits hits',
+    retrieve_hits (build_index st) q = ROk hits /\ retrieve_hits (build_index st') q = ROk hits' /\
+    Permutation.Permutation (map (fun h : hitrec => SpecBridge.triple (snd h)) hits) (map (fun h : hitrec => SpecBridge.triple (snd h)) hits') /\
+    NoDup (map snd hits) /\ NoDup (map snd hits').
+Proof. exact JsonIndex.json_index_transparent. Qed.
+
+(* OUTSIDE json_safe the full statement is FALSE of the faithful model -- the findings, each with its witness values
+   (replayed on the real code by the check: KNOWN_FINDINGS F13, F15, F16, F17): integers beyond 2^53 and json.Numbers
+   that are not canonical integer texts change meaning (`changes` = decodable, and expr_sem differs) *)
+Theorem C09_json_refuted_beyond_2_53 :
+  forallb (fun '(fd, op, v) => JsonProof.changes fd op v && negb (Json.json_safe fd op v))
+    [(JsonProof.fd_common, OpEQ, VInt KI64 JsonProof.big); (JsonProof.fd_range, OpGT, VInt KI64 JsonProof.big);
+     (JsonProof.fd_common, OpEQ, VJson (dec_text JsonProof.big))] = true.
+Proof. vm_compute. reflexivity. Qed.
+Theorem C09_json_refuted_noncanonical_json_number :
+  forallb (fun v => JsonProof.changes JsonProof.fd_common OpEQ v && negb (Json.json_safe JsonProof.fd_common OpEQ v))
+    [JsonProof.jn10; JsonProof.jn27; JsonProof.jn1e3; JsonProof.jnm0] = true.
+Proof. vm_compute. reflexivity. Qed.
+
 Print Assumptions C09_scalar_identified_by_text.
 Print Assumptions C09_every_integer_width.
 Print Assumptions C09_typed_slice_identified_by_texts.
 Print Assumptions C09_list_identified_by_texts.
 Print Assumptions C09_match_iff_canonical_text.
+Print Assumptions C09_json_expression_keeps_its_meaning.
+Print Assumptions C09_json_transparent.
+Print Assumptions C09_json_index_transparent.
+Print Assumptions C09_json_refuted_beyond_2_53.
+Print Assumptions C09_json_refuted_noncanonical_json_number.
